@@ -22,6 +22,11 @@ type Config struct {
 	Stops     int    `json:"stops"`      // number of concurrent Stop callers
 	SecondRun bool   `json:"second_run"` // Run is called a second time after the first call returned
 	NoRun     bool   `json:"no_run"`     // Run is never called
+	// Mix = nested only: the nested archetype ends ON ITS OWN - "done0"/"done1" (reaches Done), "err0"/"err1"
+	// (a section returns an error), "assert0"/"assert1" (assertion failure) - after serving 0 or 1 critical sections
+	// of the outer archetype; "" = it serves until the outer context closes it
+	Nested string `json:"nested,omitempty"`
+	Skip1  bool   `json:"skip1,omitempty"` // the outer section L.s1 does not use the nested resource
 }
 
 func (c Config) Name() string {
@@ -32,11 +37,18 @@ func (c Config) Name() string {
 	if c.NoRun {
 		n += "/norun"
 	}
+	if c.Nested != "" {
+		n += "/nested-ends=" + c.Nested
+	}
+	if c.Skip1 {
+		n += "/s1-skips-r"
+	}
 	return n
 }
 
 var errBoom = errors.New("verif: injected resource error")
 var errClose = errors.New("verif: injected Close error")
+var errNested = errors.New("verif: the nested archetype failed")
 
 const loopGateCap = 4 // End=loop: Run is not granted a further section while a Stop caller has not started yet and this many sections were begun
 
@@ -77,7 +89,18 @@ func num(i int) tla.Value { return tla.MakeNumber(int32(i)) }
 
 // registerArchetype is the tiny nested archetype: one register speaking the request/ack protocol
 // of resources.NewNested over its `in` and `out` channels.
-func registerArchetype() distsys.MPCalArchetype {
+//
+// ends = "" : it serves forever.  Otherwise it ends on its own after having served `after` commit
+// requests (= critical sections of the outer archetype): "done" reaches its Done label (Run returns
+// nil), "err" returns an error, "assert" fails an assertion.
+func registerArchetype(ends string, after int) distsys.MPCalArchetype {
+	served := 0
+	next := func() string {
+		if ends != "" && served >= after {
+			return "Reg.end"
+		}
+		return "Reg.loop"
+	}
 	tpe, value := tla.MakeString("tpe"), tla.MakeString("value")
 	ack := func(s string, extra ...tla.RecordField) tla.Value {
 		return tla.MakeRecord(append(extra, tla.RecordField{Key: tpe, Value: tla.MakeString(s)}))
@@ -116,6 +139,7 @@ func registerArchetype() distsys.MPCalArchetype {
 			resp = ack("precommit_ack")
 		case "commit_req":
 			resp = ack("commit_ack")
+			served++
 		case "abort_req":
 			resp = ack("abort_ack")
 		default:
@@ -124,10 +148,19 @@ func registerArchetype() distsys.MPCalArchetype {
 		if err := iface.Write(out, nil, resp); err != nil {
 			return err
 		}
-		return iface.Goto("Reg.loop")
+		return iface.Goto(next())
 	}}
-	return distsys.MPCalArchetype{Name: "Reg", Label: "Reg.loop", RequiredRefParams: []string{"Reg.in", "Reg.out", "Reg.store"},
-		JumpTable: distsys.MakeMPCalJumpTable(loop), ProcTable: distsys.MakeMPCalProcTable(), PreAmble: func(distsys.ArchetypeInterface) {}}
+	end := distsys.MPCalCriticalSection{Name: "Reg.end", Body: func(iface distsys.ArchetypeInterface) error {
+		switch ends {
+		case "err":
+			return errNested
+		case "assert":
+			return fmt.Errorf("%w: the nested archetype's own assertion", distsys.ErrAssertionFailed)
+		}
+		return distsys.ErrDone
+	}}
+	return distsys.MPCalArchetype{Name: "Reg", Label: next(), RequiredRefParams: []string{"Reg.in", "Reg.out", "Reg.store"},
+		JumpTable: distsys.MakeMPCalJumpTable(loop, end), ProcTable: distsys.MakeMPCalProcTable(), PreAmble: func(distsys.ArchetypeInterface) {}}
 }
 
 // mainArchetype: sections L.s0 and L.s1 over the resources `a` and `r` (r is a plain variable,
@@ -149,6 +182,9 @@ func (w *world) mainArchetype() distsys.MPCalArchetype {
 		}
 		if err := iface.Write(a, nil, num(100+10*w.gate.Attempts+sec)); err != nil {
 			return err
+		}
+		if sec == 1 && cfg.Skip1 {
+			return nil
 		}
 		var idx []tla.Value
 		if isMap {
@@ -243,13 +279,17 @@ func build(cfg Config, s *bubble.Sched) *world {
 		r = w.logging("r", nil, resources.NewHashMap(hm))
 	case "nested":
 		var ext *bubble.Thread
-		if s != nil {
-			ext = s.External("N")
+		if s != nil && cfg.Nested == "" {
+			ext = s.External("N") // the inner resource's Close is a scheduling point only when the outer context closes the nested one
+		}
+		ends, after := "", 0
+		if cfg.Nested != "" {
+			ends, after = cfg.Nested[:len(cfg.Nested)-1], int(cfg.Nested[len(cfg.Nested)-1]-'0')
 		}
 		nested := resources.NewNested(func(sendCh chan<- tla.Value, receiveCh <-chan tla.Value) []*distsys.MPCalContext {
 			store := &bubble.Logging{Inner: local(4), Name: "nested.store", Who: "N", Log: w.log, ClosePark: ext}
 			w.regs = append(w.regs, store)
-			nctx := distsys.NewMPCalContext(tla.MakeString("reg"), registerArchetype(),
+			nctx := distsys.NewMPCalContext(tla.MakeString("reg"), registerArchetype(ends, after),
 				distsys.EnsureArchetypeRefParam("in", resources.NewInputChan(receiveCh)),
 				distsys.EnsureArchetypeRefParam("out", resources.NewOutputChan(sendCh)),
 				distsys.EnsureArchetypeRefParam("store", store))
@@ -455,6 +495,26 @@ func (w *world) judge(evs []bubble.Event) *Failure {
 	wantA, wantF := w.faultFired == "assert", w.faultFired == "errorlabel"
 	wantB := w.fault != nil && w.fault.Fired > 0
 	wantC := cfg.Mix == "closeerr"
+	if cfg.Nested != "" {
+		// the outer archetype used the nested resource after the nested archetype had ended: Run must report that
+		// resource error (resources.ErrNestedArchetypeStopped), whatever else it reports
+		touchedStopped := false
+		for _, e := range evs {
+			if e.Who == "R" && e.Res == "r" && strings.Contains(e.Err, resources.ErrNestedArchetypeStopped.Error()) {
+				touchedStopped = true
+			}
+		}
+		nestedFailed := strings.HasPrefix(cfg.Nested, "err") || strings.HasPrefix(cfg.Nested, "assert")
+		switch {
+		case touchedStopped && !errors.Is(err, resources.ErrNestedArchetypeStopped):
+			return &Failure{"run-result", fmt.Sprintf("the outer archetype used the nested resource after the nested archetype had ended, but Run returned %v instead of reporting ErrNestedArchetypeStopped", err)}
+		case nestedFailed && err == nil:
+			return &Failure{"run-result", "the nested archetype failed but the outer Run, which had started, returned nil"}
+		case !nestedFailed && !touchedStopped && err != nil:
+			return &Failure{"run-result", fmt.Sprintf("nothing failed in this run but Run returned %v", err)}
+		}
+		return nil
+	}
 	if isA != wantA || isF != wantF || isB != wantB || isC != wantC || (err != nil && !(wantA || wantF || wantB || wantC)) {
 		return &Failure{"run-result", fmt.Sprintf("Run returned %v; expected assertion=%v fallthrough=%v resource-error=%v close-error=%v (what really happened in the run)", err, wantA, wantF, wantB, wantC)}
 	}
